@@ -105,6 +105,17 @@ CONFIGS["RelX"] = dict(
     Attach0=[("m1", "i1"), ("s1", "m1"), ("y1", "m1"), ("p1", "m1"), ("v1", "s1"), ("c1", "v1")],
     EmitKeys=set(TREE_KEYS) | {"named"})
 
+# --- "separately constructed nodes never share flags, AuxData maps, attributes or collections" (C04): two nodes of
+#     every kind that holds such a thing, every one- and two-step edit of one of them (run under Depth3); the
+#     harness hands every constructor of a kind the same empty mutable argument
+CONFIGS["Share"] = dict(
+    IRs={"i1", "i2"}, Modules={"m1", "m2"}, Sections={"s1", "s2"}, Intervals={"v1", "v2"}, Symbols={"y1"},
+    Exprs={"e1", "e3"}, ExprSym={"e1": "y1", "e3": "y1"}, Tags={0, 1}, ISizes={0, 2}, ByteVals={7}, MaxBytes=1,
+    Families={"tags", "bytes", "geom.iv"},
+    Attach0=[("m1", "i1"), ("m2", "i2"), ("s1", "m1"), ("s2", "m2"), ("v1", "s1"), ("v2", "s2"), ("y1", "m1")],
+    Symx0={("v1", 0, "e1"), ("v2", 0, "e3")},
+    EmitKeys=set(TREE_KEYS) | {"tags", "bytes", "isz", "addr", "symx"})
+
 # --- the module list: 2 IRs x 3 modules, the whole MutableSequence interface
 CONFIGS["ModList"] = dict(
     IRs={"i1", "i2"}, Modules={"m1", "m2", "m3"}, Sections={"s1"},
